@@ -19,7 +19,7 @@ RULE = (
     "arguments; items given as list, tuple and generator; n_workers 5..9 with schedules that load single workers (first/last/odd: the carried "
     "sketch of pairwise merging) plus Hypothesis-drawn (items, n_workers 1..9, schedule, combination) cases. Items are dicts describing lists of keys, or plain values incl. falsy ones (0, '', b'', [], ()), numpy arrays and objects that compare equal to everything (possibly "
     "empty, sharing keys, NUL/long keys), updated by list, dict-with-multiplicities or ngram calls; callbacks return generated record counts (also "
-    "through a **kwargs-dependent callback). Oracle per run: every item placed on the queue and delivered exactly once; returned sketches identified by class (an undocumented tuple order is only counted); HyperLogLog registers == sequential sketch; n_added of cms/hh == total multiplicity; n_records == sum of callback "
+    "through a **kwargs-dependent callback). Oracle per run: the callback is invoked exactly once per item (judged by the callback's own log, so an implementation may batch items); returned sketches identified by class (an undocumented tuple order is only counted); HyperLogLog registers == sequential sketch; n_added of cms/hh == total multiplicity; n_records == sum of callback "
     "returns; linear cms within the C01 bounds, log cms above the C06 lower bound, hh within C03/C04 bounds w.r.t. the whole stream. A quarter of the drawn cases run after an earlier parallel_add call of the same process (same arguments, other keys) whose result is still held: the later result must not contain its data and the earlier result must not change. Interleaved runs: the same code under a cooperative-thread context (bounded blocking queue, concurrent filler, seeded scheduler with 5 policies) for Hypothesis-drawn cases with up to 40 items and 6 workers. Real spawned "
     "runs (quick 1, thorough 4; a side file records (pid, item)) validate the context. Non-trivial: >= 2 workers receive items and n_workers >= 3 "
     "or odd. Distinct = distinct (items, n_workers, schedule, combination, items_as)."
